@@ -161,6 +161,20 @@ package rule
 //@ modifies alloc
 //@ ensures[C06] isNil(result2) ==> result0 in reverseArch && result1 == reverseArch[result0]
 //@ ensures[C06] isNil(result2) && toLower(arch) != "b64" && toLower(arch) != "b32" ==> result0 == arch
+// b64/b32 name the running program's own architecture and its 32-bit compat architecture
+// (verified for the host the checks run on: GOARCH=amd64, layout assumption of DESIGN 2.2).
+//@ ensures[C06,C07] isNil(result2) && toLower(arch) == "b64" ==> result0 == "x86_64"
+//@ ensures[C06,C07] isNil(result2) && toLower(arch) == "b32" ==> result0 == "i386"
+// getDisplayArch: a name other than b64/b32 is the table's name for the number; b64/b32 are only
+// used for the architectures getArch maps them back to (numbers through reverseArch, which init
+// builds as the inverse of AuditArchNames).
+//@ func rule.getDisplayArch
+//@ modifies alloc
+//@ ensures[C07] isNil(result1) && result0 != "b64" && result0 != "b32" ==> archID in auparse.AuditArchNames && result0 == auparse.AuditArchNames[archID]
+// archTablesAsBuilt: what rule.init establishes (reverseArch is built from AuditArchNames) - a hypothesis of the two clauses below, not proved here.
+//@ spec archTablesAsBuilt() bool := "x86_64" in reverseArch && "i386" in reverseArch && reverseArch["x86_64"] == 3221225534 && reverseArch["i386"] == 1073741827 && (forall a int :: a in auparse.AuditArchNames ==> auparse.AuditArchNames[a] != "b64" && auparse.AuditArchNames[a] != "b32")
+//@ ensures[C07] archTablesAsBuilt() && isNil(result1) && result0 == "b64" ==> archID == reverseArch["x86_64"]
+//@ ensures[C07] archTablesAsBuilt() && isNil(result1) && result0 == "b32" ==> archID == reverseArch["i386"]
 //
 //@ spec isStringField(f int) bool := f == objectUserField || f == objectRoleField || f == objectTypeField || f == objectLevelLowField || f == objectLevelHighField || f == pathField || f == dirField || f == subjectUserField || f == subjectRoleField || f == subjectTypeField || f == subjectSensitivityField || f == subjectClearanceField || f == keyField || f == exeField
 //@ spec isPlainNumField(f int) bool := f == arg0Field || f == arg1Field || f == arg2Field || f == arg3Field || f == inodeField || f == devMajorField || f == devMinorField || f == successField || f == ppidField || f == pidField || f == persField
